@@ -5,6 +5,7 @@ CONSTANTS
   Counts = {}
   Filters = {}
   L1Variant = "fixed"
+  ReaderSteps = {}
   TwoFocuses = {}
 INVARIANT Verdicts
 POSTCONDITION Accepted
